@@ -805,7 +805,7 @@ def translate_rrule_str(src):
 # `try: … except (ValueError, OverflowError): raise ValueError(…)`.  Values: `int(value)`, `[int(x) for x in value.split(',')]`,
 # `self._freq_map[value]`, `self._weekday_map[value]`, `parser.parse(value, ignoretz=kwargs.get("ignoretz"),
 # tzinfos=kwargs.get("tzinfos"))` (kept as the text and the options: the parse itself is C02).
-# `_handle_BYWEEKDAY` (the `+1MO` / `MO(+1)` splitting loop) is NOT translated yet: its arm calls the hand model `parseWDay`.
+# `_handle_BYWEEKDAY` (the `+1MO` / `MO(+1)` splitting loop) is matched statement by statement (translate_byweekday) -> Gen.rrsWDay.
 
 UPDATE_KEYS = {"freq", "interval", "count", "wkst", "until", "bysetpos", "bymonth", "bymonthday", "byyearday", "byeaster",
                "byweekno", "byweekday", "byhour", "byminute", "bysecond"}
@@ -861,6 +861,87 @@ def handler_arm(fn, upname):
         return ".ok (.untilV value po)"
     raise Untranslatable("%s: value expression" % fn.name)
 
+def translate_byweekday(fn):
+    """`_handle_BYWEEKDAY`: the per-item body of `for wday in value.split(','):` -> Gen.rrsWDay; the method -> an arm of rrsHandle"""
+    def cname(n): return getattr(n, "id", None)
+    b = strip_docstring(fn.body)
+    if not (len(b) == 3 and isinstance(b[0], ast.Assign) and cname(b[0].targets[0]) == "l" and isinstance(b[0].value, ast.List) and not b[0].value.elts
+            and isinstance(b[1], ast.For) and cname(b[1].target) == "wday" and isinstance(b[1].iter, ast.Call) and b[1].iter.func.attr == "split"
+            and cname(b[1].iter.func.value) == "value" and len(b[1].iter.args) == 1 and len(b[1].iter.args[0].value) == 1 and not b[1].orelse
+            and isinstance(b[2], ast.Assign) and isinstance(b[2].targets[0], ast.Subscript) and cname(b[2].targets[0].value) == "rrkwargs"
+            and b[2].targets[0].slice.value == "byweekday" and cname(b[2].value) == "l"):
+        raise Untranslatable("_handle_BYWEEKDAY: method shape")
+    sep = b[1].iter.args[0].value
+    fb = b[1].body
+    if not (len(fb) == 2 and isinstance(fb[0], ast.If)): raise Untranslatable("_handle_BYWEEKDAY: loop body")
+    i1, app = fb
+    # l.append(weekdays[self._weekday_map[w]](n))
+    av = app.value if isinstance(app, ast.Expr) else None
+    if not (isinstance(av, ast.Call) and isinstance(av.func, ast.Attribute) and av.func.attr == "append" and cname(av.func.value) == "l"
+            and isinstance(av.args[0], ast.Call) and [cname(a) for a in av.args[0].args] == ["n"]
+            and isinstance(av.args[0].func, ast.Subscript) and cname(av.args[0].func.value) == "weekdays"
+            and isinstance(av.args[0].func.slice, ast.Subscript) and av.args[0].func.slice.value.attr == "_weekday_map"
+            and cname(av.args[0].func.slice.slice) == "w"):
+        raise Untranslatable("_handle_BYWEEKDAY: append")
+    finish = "RRuleStr.weekdayCall (RRuleStr.lookup (Gen.WEEKDAY_MAP.map (fun p => (p.1.toList, p.2))) w) n"
+    # arm 1: if '(' in wday: splt = wday.split('('); w = splt[0]; n = int(splt[1][:-1])
+    t = i1.test
+    if not (isinstance(t, ast.Compare) and isinstance(t.ops[0], ast.In) and isinstance(t.left, ast.Constant) and len(t.left.value) == 1 and cname(t.comparators[0]) == "wday"):
+        raise Untranslatable("_handle_BYWEEKDAY: first test")
+    par = t.left.value
+    a = i1.body
+    ok1 = (len(a) == 3 and cname(a[0].targets[0]) == "splt" and a[0].value.func.attr == "split" and cname(a[0].value.func.value) == "wday"
+           and len(a[0].value.args) == 1 and a[0].value.args[0].value == par
+           and cname(a[1].targets[0]) == "w" and isinstance(a[1].value, ast.Subscript) and cname(a[1].value.value) == "splt" and a[1].value.slice.value == 0
+           and cname(a[2].targets[0]) == "n" and cname(a[2].value.func) == "int" and isinstance(a[2].value.args[0], ast.Subscript)
+           and isinstance(a[2].value.args[0].slice, ast.Slice) and a[2].value.args[0].slice.lower is None
+           and isinstance(a[2].value.args[0].slice.upper, ast.UnaryOp) and a[2].value.args[0].slice.upper.operand.value == 1
+           and isinstance(a[2].value.args[0].value, ast.Subscript) and cname(a[2].value.args[0].value.value) == "splt" and a[2].value.args[0].value.slice.value == 1)
+    if not ok1: raise Untranslatable("_handle_BYWEEKDAY: parenthesis arm")
+    # arm 2: elif len(wday): for i in range(len(wday)): if wday[i] not in '<chars>': break ; n = wday[:i] or None ; w = wday[i:] ; if n: n = int(n)
+    if not (len(i1.orelse) == 1 and isinstance(i1.orelse[0], ast.If)): raise Untranslatable("_handle_BYWEEKDAY: elif")
+    i2 = i1.orelse[0]
+    c = i2.body
+    ok2 = (isinstance(i2.test, ast.Call) and cname(i2.test.func) == "len" and cname(i2.test.args[0]) == "wday" and len(c) == 4
+           and isinstance(c[0], ast.For) and cname(c[0].target) == "i" and not c[0].orelse and isinstance(c[0].iter, ast.Call) and cname(c[0].iter.func) == "range"
+           and len(c[0].iter.args) == 1 and cname(c[0].iter.args[0].func) == "len" and cname(c[0].iter.args[0].args[0]) == "wday"
+           and len(c[0].body) == 1 and isinstance(c[0].body[0], ast.If) and not c[0].body[0].orelse and len(c[0].body[0].body) == 1
+           and isinstance(c[0].body[0].body[0], ast.Break) and isinstance(c[0].body[0].test, ast.Compare) and isinstance(c[0].body[0].test.ops[0], ast.NotIn)
+           and isinstance(c[0].body[0].test.left, ast.Subscript) and cname(c[0].body[0].test.left.value) == "wday" and cname(c[0].body[0].test.left.slice) == "i"
+           and isinstance(c[0].body[0].test.comparators[0], ast.Constant) and isinstance(c[0].body[0].test.comparators[0].value, str)
+           and cname(c[1].targets[0]) == "n" and isinstance(c[1].value, ast.BoolOp) and isinstance(c[1].value.op, ast.Or)
+           and isinstance(c[1].value.values[0], ast.Subscript) and cname(c[1].value.values[0].value) == "wday"
+           and c[1].value.values[0].slice.lower is None and cname(c[1].value.values[0].slice.upper) == "i"
+           and isinstance(c[1].value.values[1], ast.Constant) and c[1].value.values[1].value is None
+           and cname(c[2].targets[0]) == "w" and isinstance(c[2].value, ast.Subscript) and cname(c[2].value.value) == "wday"
+           and cname(c[2].value.slice.lower) == "i" and c[2].value.slice.upper is None
+           and isinstance(c[3], ast.If) and cname(c[3].test) == "n" and not c[3].orelse and len(c[3].body) == 1
+           and cname(c[3].body[0].targets[0]) == "n" and cname(c[3].body[0].value.func) == "int" and cname(c[3].body[0].value.args[0]) == "n")
+    if not ok2: raise Untranslatable("_handle_BYWEEKDAY: prefix arm")
+    chars = c[0].body[0].test.comparators[0].value
+    # arm 3: else: raise ValueError
+    if not (len(i2.orelse) == 1 and isinstance(i2.orelse[0], ast.Raise) and cname(i2.orelse[0].exc.func) in ("ValueError", "KeyError")):
+        raise Untranslatable("_handle_BYWEEKDAY: else arm")
+    text = ("/-- translated from `_rrulestr._handle_BYWEEKDAY`: the body of `for wday in value.split('%s'):` — `WD(n)` / `nWD` / `WD` split into the\n"
+            "    weekday name and the ordinal, then `weekdays[self._weekday_map[w]](n)` -/\n"
+            "def rrsWDay (wday : StrPy.Str) : Py.R RRuleStr.WDay :=\n"
+            "  if wday.contains %s then\n"
+            "    let splt := ICal.splitOnChar %s wday\n"
+            "    (StrPy.getL splt 0) >>= fun w =>\n"
+            "    (StrPy.getL splt 1) >>= fun s1 =>\n"
+            "    (RRuleStr.int! s1.dropLast) >>= fun v =>\n"
+            "    let n : Option Int := some v\n"
+            "    %s\n"
+            "  else if wday.length != 0 then\n"
+            "    let i := StrPy.forBreakIdx (fun c => %s.contains c) wday 0\n"
+            "    let n0 := wday.take i\n"
+            "    let w := wday.drop i\n"
+            "    (if n0.isEmpty then (.ok none : Py.R (Option Int)) else (RRuleStr.int! n0) >>= fun v => .ok (some v)) >>= fun n =>\n"
+            "    %s\n"
+            "  else .error .%s\n" % (sep, lean_char(par), lean_char(par), finish, lean_str(chars), finish, i2.orelse[0].exc.func.id))
+    arm = "((ICal.splitOnChar %s value).mapM rrsWDay) >>= fun l => .ok (.byweekday l)" % lean_char(sep)
+    return text, arm
+
 def translate_rule_parser(src):
     tree = ast.parse(open(os.path.join(src, "rrule.py")).read())
     cls = find_function(tree, "_rrulestr")
@@ -873,16 +954,18 @@ def translate_rule_parser(src):
             if not (isinstance(st.value, ast.Name) and st.value.id in defs): raise Untranslatable("alias %s" % st.targets[0].id)
             defs[st.targets[0].id] = defs[st.value.id]
             if st.targets[0].id[8:].isupper(): arms.append((st.targets[0].id[8:], st.value.id))
-    chain = []
+    chain, pre = [], []
     for up, target in arms:
         fn = defs[target]
-        if fn.name in HAND_MODELLED_HANDLERS:
-            arm = "((ICal.splitOnChar ',' value).mapM RRuleStr.parseWDay) >>= fun l => .ok (.byweekday l)"      # hand model (see above)
+        if fn.name == "_handle_BYWEEKDAY":
+            wtext, arm = translate_byweekday(fn)
+            if not pre: pre.append(wtext)
+            fps["_rrulestr." + fn.name] = fingerprint([fn])
         else:
             arm = handler_arm(fn, up)
             fps["_rrulestr." + fn.name] = fingerprint([fn])
         chain.append('if name == RRuleStr.lit "%s" then %s' % (up, arm))
-    out = ["/-- translated from `rrule.py:_rrulestr`: `getattr(self, \"_handle_\" + name)(rrkwargs, name, value, ignoretz=…, tzinfos=…)` resolved\n"
+    out = pre + ["/-- translated from `rrule.py:_rrulestr`: `getattr(self, \"_handle_\" + name)(rrkwargs, name, value, ignoretz=…, tzinfos=…)` resolved\n"
            "    against the class body (every `_handle_X` definition and alias, in source order) as the assignment it makes; `po` = the\n"
            "    `ignoretz` / `tzinfos` keyword arguments; an unknown name is AttributeError -/\n"
            "def rrsHandle (po : RRuleStr.ParseOpts) (name value : StrPy.Str) : Py.R RRuleStr.Update :=\n  "
